@@ -570,6 +570,7 @@ func (e *Enc) cutsBefore(fr *Frame, b *ssa.BasicBlock, i int, ins ssa.Instructio
 			t := e.evalBool(sc, c.E)
 			e.obligeAssume("assert@stmt", cs.Anchor+":"+clabel(c), guard, t, c.Src, ins.Pos())
 		}
+		cs.Hits++
 		e.cutsLeft--
 		if e.cutsLeft == 0 && e.stopAfterCuts {
 			panic(stopEncoding{})
